@@ -32,9 +32,9 @@ RULE = (
 )
 PARTIAL = [
     "eigenfunctions, eigenvalues, Gram eigenvectors, mean and weight are taken from the fitted estimator and fed to the model (their own correctness is C01/C02/C09/C10's subject; mean and weight are additionally recomputed by the model)",
-    "PACE: modelled only for normalize=False (exact rational solve of Σ y = x with certificate); tolerance 1e-6 (pinv of Σ = Mercer + σ²I, σ² ≥ 1e-4)",
+    "PACE (dense, 1-D, both settings of normalize, transform(None) and transform(data)): exact rational solve of y Σ = x with certificate; compared at 1e-6 when cond(Σ) ≤ 1e8 and ≤ 9 grid points (pinv of Σ = Mercer + σ²I, σ² ≥ 1e-4); PACE on irregular data (`_transform_pace_irregular`: interpolation first) is not modelled",
     "integration_method='simpson' is scipy's: checked by the oracle against scipy directly, not modelled",
-    "MFPCA: only inverse_transform is modelled (componentwise); its transform is C04's subject",
+    "MFPCA: inverse_transform (componentwise) and transform(None, NumInt) with 1-D components (sum of the univariate scores) are modelled; image components (smoothed before integration), PACE and the covariance-route transform are C04's subject",
 ]
 UNCENTRED = "normalize_rescales_uncentred"
 RTOL = 1e-9
@@ -345,6 +345,8 @@ def _run_mfpca(case):
         out["phi"] = [_flat(c.values) for c in est.eigenfunctions.data]
         s, e = _try(lambda: est.transform(None, method="InnPro"))
         out["s_none"] = None if s is None else np.asarray(s, dtype=float).tolist()
+        sn, e = _try(lambda: est.transform(None, method="NumInt"))
+        out["s_numint"] = None if sn is None else np.asarray(sn, dtype=float).tolist()
         n, K = len(case["comps"][0]["X"]), len(out["vals"])
         if s is not None and np.all(np.isfinite(s)) and all(np.all(np.isfinite(p)) for p in out["phi"]):
             rec = est.inverse_transform(np.asarray(s))
@@ -400,6 +402,16 @@ def _requests_one(case, impl):
             for p, c in enumerate(case["comps"]):
                 if impl["weights"][p] >= 0:
                     reqs.append((f"inv1:{p}", f"inv {_rv(impl['mean'][p])} {rs(F(impl['weights'][p]))} {M(impl['S1'])} {_rm(impl['phi'][p])}"))
+        # MFPCA.transform(None, "NumInt") = Σ_p univariate NumInt scores of the stored (centred, rescaled) data
+        # (FPCA.scoresMulti); 1-D components only (image components are smoothed first)
+        if (impl.get("s_numint") is not None and all("t2" not in c for c in case["comps"]) and all(w_ > 0 for w_ in impl["weights"])
+                and all(_finite(ph) for ph in impl["phi"])):
+            nz = "1" if case["normalize"] else "0"
+            rot = impl.get("rot", 0)
+            for p, c in enumerate(case["comps"]):
+                n = len(c["X"])
+                Xr = [c["X"][(i + rot) % n] for i in range(n)]
+                reqs.append((f"numint:{p}", f"tr1 {nz} spec {J(c['t'])} {_rv(impl['mean'][p])} {rs(F(impl['weights'][p]))} {M(Xr)} {_rm(impl['phi'][p])}"))
         return reqs
     reqs.append(("mean", f"mean {M(case['X'])}"))
     if case["normalize"]:
@@ -420,12 +432,15 @@ def _requests_one(case, impl):
         reqs.append(("inv1", f"inv {_rv(impl['mean'])} {wt} {M(impl['S1'])} {_rm(impl['phi'])}"))
     if case["score"] == "InnPro" and "V" in impl and _finite(impl["V"]) and len(impl["vals"]) > 0 and min(impl["vals"]) >= 0:
         reqs.append(("innpro", f"innpro {len(case['X'])} {_rv(impl['vals'])} {_rm(impl['V'])}"))
-    if (case["score"] == "PACE" and not case["normalize"] and case["dim"] == 1 and phi_ok and len(case["t"]) <= 9
+    if (case["score"] == "PACE" and case["dim"] == 1 and phi_ok and len(case["t"]) <= 9 and impl["weights"] > 0
             and "cov" in impl and _finite(impl["cov"])):
-        mean = [F(x) for x in impl["mean"]]
-        Z = [[F(x) - mu for x, mu in zip(r, mean)] for r in Fm(case["X"])]
         sig = max(1e-4, impl["noise"])
-        reqs.append(("pace", f"pace {_rv(impl['vals'])} {_rm(impl['cov'])} {rs(F(sig))} {_rm(Z)} {_rm(impl['phi'])}"))
+        cond = (np.abs(np.asarray(impl["cov"], dtype=float)).max() * len(case["t"]) + sig) / sig
+        if cond <= 1e8:   # pinv of Σ = Mercer + σ²I in floats is only comparable when Σ is well conditioned
+            nz = "1" if case["normalize"] else "0"
+            tail = f"{_rv(impl['mean'])} {wt} {M(case['X'])} {_rv(impl['vals'])} {_rm(impl['cov'])} {rs(F(sig))} {_rm(impl['phi'])}"
+            reqs.append(("pace", f"pacez {nz} spec {tail}"))        # transform(None): the stored training data
+            reqs.append(("pace_train", f"pacez {nz} impl {tail}"))  # transform(data): as coded
     return reqs
 
 
@@ -477,6 +492,11 @@ def _compare_one(case, impl, outs):
         for p in range(len(case["comps"])):
             if f"inv1:{p}" in outs:
                 ds += _cmp_mat(f"MFPCA.inverse_transform component {p}", impl["inv1"][p], pmat(outs[f"inv1:{p}"]))
+        if "numint:0" in outs:
+            parts = [pmat(outs[f"numint:{p}"]) for p in range(len(case["comps"]))]
+            tot = [[sum(P_[i][k] for P_ in parts) for k in range(len(parts[0][0]))] for i in range(len(parts[0]))]
+            sc = max(abs(float(x)) for P_ in parts for r_ in P_ for x in r_)
+            ds += _cmp_mat("MFPCA.transform(None, NumInt) = sum of the component scores", impl["s_numint"], tot, sc, 1e-7)
         return ds
     if "mean" in outs:
         ds += _cmp_mat("mean", [impl["mean"]], [pvec(outs["mean"])])
@@ -492,7 +512,9 @@ def _compare_one(case, impl, outs):
     if "innpro" in outs and impl["s_none"] is not None:
         ds += _cmp_mat("InnPro scores", impl["s_none"], pmat(outs["innpro"]))
     if "pace" in outs and impl["s_none"] is not None:
-        ds += _cmp_mat("PACE scores", impl["s_none"], pmat(outs["pace"]), None, 1e-6)
+        ds += _cmp_mat("PACE scores of transform(None)", impl["s_none"], pmat(outs["pace"]), None, 1e-6)
+    if "pace_train" in outs and impl.get("s_train") is not None:
+        ds += _cmp_mat("PACE scores of transform(training data)", impl["s_train"], pmat(outs["pace_train"]), None, 1e-6)
     if "inv1" in outs and "inv1" in impl:
         ds += _cmp_mat("inverse_transform", impl["inv1"], pmat(outs["inv1"]))
     return ds
